@@ -9,7 +9,7 @@ from vlib import ksim
 PROPERTY = "C03"
 RULE = ("initial workers 1-4 x timeout {0,1,2,5,30} x history of up to 12 external events {worker exit with status 0/1/3/4/255 or "
         "signal 9/15/11, TTIN/TTOU bursts of 1-7 signals, HUP with a new worker count, child dying inside fork(), a non-worker child and a worker dying under one SIGCHLD, "
-        "every live worker failing to boot one after the other (also during halt()), real-time signals 34-64, tick} x a schedule "
+        "every live worker failing to boot one after the other (also during halt()), real-time signals 34-64, tick} x the pid counter wrapping after 1-6 forks x a schedule "
         "vector that decides at every fake system call (fork, kill, waitpid, sleep, select) whether a dying child dies there, so that "
         "SIGCHLD's handler runs inside spawn_worker, kill_workers, manage_workers, reload; the real Arbiter.run() executes against the "
         "simulated kernel and is compared with a reference pool model at quiescence (timeout+8 idle seconds after the last event): "
@@ -46,6 +46,7 @@ def strategy(tier):
         "timeout": st.sampled_from([0, 1, 2, 5, 30, 30]),
         "events": st.lists(event, min_size=1, max_size=12).map(lambda l: [list(e) for e in l]),
         "sched": st.lists(st.integers(0, 11), max_size=60),
+        "pid_wrap": st.sampled_from([None, None, None, 1, 2, 3, 4, 6]),      # the pid counter wraps after that many forks
     })
 
 
@@ -195,6 +196,7 @@ def run_case(case):
     if case.get("engine") == "Rboot":
         return run_boot_failure(case)
     k = ksim.Kernel(case["sched"], case["events"], quiesce_steps=case["timeout"] + 8)
+    k.pid_wrap = case.get("pid_wrap")
     out = ksim.run_arbiter(k, {"workers": case["workers"], "timeout": case["timeout"], "graceful_timeout": 3})
     arb = out["arbiter"]
     vio = []
